@@ -33,6 +33,9 @@ func setKeyFunc(cmd []string) (internal.KeyExtractionFuncResult, error) {
 }
 
 func msetKeyFunc(cmd []string) (internal.KeyExtractionFuncResult, error) {
+	if len(cmd) < 3 {
+		return internal.KeyExtractionFuncResult{}, errors.New(constants.WrongArgsResponse)
+	}
 	if len(cmd[1:])%2 != 0 {
 		return internal.KeyExtractionFuncResult{}, errors.New("each key must be paired with a value")
 	}
